@@ -1113,13 +1113,14 @@ class Connection(ConnectionEventsTarget, inspection.Inspectable["Inspector"]):
 
         self.__in_begin = True
 
-        if self._has_events or self.engine._has_events:
-            self.dispatch.begin(self)
-
         try:
-            self.engine.dialect.do_begin(self.connection)
-        except BaseException as e:
-            self._handle_dbapi_exception(e, None, None, None, None)
+            if self._has_events or self.engine._has_events:
+                self.dispatch.begin(self)
+
+            try:
+                self.engine.dialect.do_begin(self.connection)
+            except BaseException as e:
+                self._handle_dbapi_exception(e, None, None, None, None)
         finally:
             self.__in_begin = False
 
